@@ -105,7 +105,7 @@ THint == IsEvent("hint") /\ LET e == Rec[l] IN
 TLazyNew == IsEvent("lazy_new") /\ LET e == Rec[l] IN
               /\ e.ok /\ e.from \in {"encoding", "element"}
               /\ lz' = [st |-> IF e.from = "encoding" THEN "Encoding" ELSE "Element",
-                        from |-> e.from, s |-> e.s, pt |-> Aff(e.p), nc |-> e.nc, nw |-> e.nw,
+                        from |-> e.from, s |-> e.s, pt |-> Aff(e.p), orig |-> Aff(e.p), nc |-> e.nc, nw |-> e.nw,
                         valid |-> IF e.from = "encoding" THEN DecodeSpec(e.s) # NoPoint ELSE TRUE]
               /\ UNCHANGED <<cost, shape>>
 \* the pair of values the variable denotes, fixed at creation
@@ -147,6 +147,11 @@ TLazyOp == IsEvent("lazy_op") /\ LET e == Rec[l] IN
                         /\ (e.op = "C") => (Has(e.val, "fq") /\ e.val.fq = LzEnc)
                         /\ (e.op = "V" /\ lz.valid) => (Has(e.val, "elt") /\ Len(e.val.elt) = 4 /\ SameElement(LzElt, Aff(e.val.elt)))
              /\ UNCHANGED shape
+\* the variable the observed one was cloned from still denotes the original element (clones do not share state)
+TLazyOrig == IsEvent("lazy_orig") /\ LET e == Rec[l] IN
+               /\ lz.st \in LazyStates
+               /\ Len(e.elt) = 4 /\ SameElement(lz.orig, Aff(e.elt))
+               /\ UNCHANGED <<lz, cost, shape>>
 TLazyEnd == IsEvent("lazy_end") /\ LET e == Rec[l] IN
               /\ lz.st \in LazyStates /\ e.nc = lz.nc
               \* satisfied unless an invalid encoding was actually decoded
@@ -176,9 +181,9 @@ TGroth == IsEvent("groth16") /\ LET e == Rec[l]
 TForce == l <= Len(Rec) /\ Has(Rec[l], "force") /\ l' = l + 1 /\ UNCHANGED <<cost, shape>>
           /\ lz' = IF Rec[l].k \in {"lazy_op", "lazy_end", "lazy_new"} THEN NoLazy ELSE lz
 \* after a forced lazy event the remaining events of that variable are skipped
-TLazySkip == l <= Len(Rec) /\ Rec[l].k \in {"lazy_op", "lazy_end"} /\ lz = NoLazy /\ ~Has(Rec[l], "force") /\ l' = l + 1 /\ UNCHANGED <<lz, cost, shape>>
+TLazySkip == l <= Len(Rec) /\ Rec[l].k \in {"lazy_op", "lazy_end", "lazy_orig"} /\ lz = NoLazy /\ ~Has(Rec[l], "force") /\ l' = l + 1 /\ UNCHANGED <<lz, cost, shape>>
 
-RNext == TReset \/ TGadget \/ TGadgetNoCS \/ THint \/ TLazyNew \/ TLazyOp \/ TLazyEnd \/ TShape \/ TPubInput \/ TGroth \/ TForce \/ TLazySkip
+RNext == TReset \/ TGadget \/ TGadgetNoCS \/ THint \/ TLazyNew \/ TLazyOp \/ TLazyOrig \/ TLazyEnd \/ TShape \/ TPubInput \/ TGroth \/ TForce \/ TLazySkip
 RSpec == RInit /\ [][RNext]_rvars
 TraceAccepted ==
   LET d == TLCGet("stats").diameter IN
